@@ -9,5 +9,5 @@ CONSTANTS
   Junk = 34
   EmitOn = TRUE
 CONSTRAINT HeadOK
-INVARIANTS ResumeEqFreshC StableC OffsSaneC Emit DeclCore DeclKind DeclExtra
+INVARIANTS ResumeEqFreshC StableC OffsSaneC CovProbe Emit DeclCore DeclKind DeclExtra
 CHECK_DEADLOCK FALSE
